@@ -273,9 +273,24 @@ class Recorder(object):
             self.relkeys.append([k for k in m.relationships.keys()
                                  if k not in ('versions', 'version_parent', 'transaction')])
         self.assoc_idx = {t: i for i, t in enumerate(env.assoc)}
+        # table handles are resolved once: they must survive remove_versioning()
+        self.vtabs = {}
+        if env.versioned:
+            for ci, cls in enumerate(env.classes):
+                if hasattr(cls, '__versioned__'):
+                    self.vtabs[ci] = (env.version_class(cls).__table__,
+                                      env.manager.option(cls, 'transaction_column_name'),
+                                      env.manager.option(cls, 'end_transaction_column_name'))
+        self.avtabs = {}
+        for ai, tbl in enumerate(env.assoc):
+            vname = (env.manager.options['table_name'] % tbl.name) if env.versioned else None
+            if vname and vname in tbl.metadata.tables:
+                self.avtabs[ai] = (tbl.metadata.tables[vname], env.manager.options['transaction_column_name'])
+        self.tx_table = env.manager.transaction_cls.__table__ if env.versioned else None
         self.trace = []          # list of event dicts
         self.snaps = []
         self.cur = None
+        self.raw_pending = []
         self._listeners = []
         self.install()
 
@@ -347,7 +362,26 @@ class Recorder(object):
         return fn
 
     def before_execute(self, conn, clauseelement, multiparams, params, execution_options):
-        if self.cur is None or isinstance(clauseelement, str):
+        if isinstance(clauseelement, str):
+            return
+        if self.cur is None:
+            tbl = getattr(clauseelement, 'table', None)
+            if tbl is not None and tbl in self.assoc_idx and (
+                    getattr(clauseelement, 'is_insert', False) or getattr(clauseelement, 'is_delete', False)):
+                op = 0 if clauseelement.is_insert else 2
+                mp = multiparams if multiparams else [params]
+                if len(mp) == 1 and isinstance(mp[0], (list, tuple)):
+                    mp = mp[0]
+                try:
+                    inline = dict(clauseelement.compile().params or {})
+                except Exception:
+                    inline = {}
+                for p in mp:
+                    vals = dict(inline)
+                    vals.update(p or {})
+                    if all(c.name in vals for c in tbl.c):
+                        self.raw_pending.append(dict(ev='rawassoc', tab=self.assoc_idx[tbl],
+                                                     key=[vals[c.name] for c in tbl.c], op=op))
             return
         tbl = getattr(clauseelement, 'table', None)
         if tbl is None or tbl not in self.assoc_idx:
@@ -400,12 +434,8 @@ class Recorder(object):
             for row in conn.execute(sa.select(tbl)).mappings():
                 vals = [row[sa.inspect(cls).columns[k].name] for k in self.colkeys[ci]]
                 live.append(dict(cls=ci, vals=vals))
-            if hasattr(cls, '__versioned__'):
-                V = env.version_class(cls)
-                vtb = V.__table__
-                txc = env.manager.option(cls, 'transaction_column_name')
-                endc = env.manager.option(cls, 'end_transaction_column_name')
-                cols = sa.inspect(cls).columns
+            if ci in self.vtabs:
+                vtb, txc, endc = self.vtabs[ci]
                 m = sa.inspect(cls)
                 byname = {c.name: c for c in vtb.c}
                 for row in conn.execute(sa.select(vtb)).mappings():
@@ -425,12 +455,10 @@ class Recorder(object):
                                    op=row[byname['operation_type']], dat=dat, mod=mod))
         av = []
         for ai, tbl in enumerate(env.assoc):
-            vname = env.manager.options['table_name'] % tbl.name
-            if vname in tbl.metadata.tables:
-                vtb = tbl.metadata.tables[vname]
+            if ai in self.avtabs:
+                vtb, atxc = self.avtabs[ai]
                 for row in conn.execute(sa.select(vtb)).mappings():
-                    av.append(dict(tab=ai, key=[row[c.name] for c in tbl.c],
-                                   tx=row[env.manager.options['transaction_column_name']],
+                    av.append(dict(tab=ai, key=[row[c.name] for c in tbl.c], tx=row[atxc],
                                    op=row['operation_type']))
         alive = []
         for ai, tbl in enumerate(env.assoc):
@@ -438,8 +466,7 @@ class Recorder(object):
                 alive.append(dict(tab=ai, key=[row[c.name] for c in tbl.c]))
         txs, chg = [], []
         if env.versioned:
-            Tx = env.manager.transaction_cls
-            txs = sorted(r[0] for r in conn.execute(sa.select(Tx.__table__.c.id)))
+            txs = sorted(r[0] for r in conn.execute(sa.select(self.tx_table.c.id)))
             if 'transaction_changes' in env.Base.metadata.tables:
                 ct = env.Base.metadata.tables['transaction_changes']
                 names = [c.__name__ for c in self.classes]
@@ -573,6 +600,21 @@ def run_program(env, cfg, prog, record=True, plain=False):
                         outcomes.append('skip')
                         continue
                     a.notes.append(nt)
+                elif kind in ('rawlink', 'rawunlink', 'rawlink_inline'):
+                    tbl = env.assoc[0]
+                    if kind == 'rawlink_inline':
+                        s.execute(tbl.insert().values(article_id=op[1], label_id=op[2]))
+                    elif kind == 'rawlink':
+                        s.execute(tbl.insert(), {'article_id': op[1], 'label_id': op[2]})
+                    else:
+                        s.execute(tbl.delete().where(sa.and_(tbl.c.article_id == sa.bindparam('article_id'),
+                                                             tbl.c.label_id == sa.bindparam('label_id'))),
+                                  {'article_id': op[1], 'label_id': op[2]})
+                    if rec and rec.raw_pending:
+                        for ev in rec.raw_pending:
+                            rec.trace.append(ev)
+                            rec.snaps.append(rec.snapshot())
+                        rec.raw_pending = []
                 elif kind == 'flush':
                     s.flush()
                 elif kind == 'query':
@@ -700,6 +742,8 @@ def g_assoc(a):
 def g_event(ev):
     if ev['ev'] == 'flush':
         return '(Flush %s %s %s)' % (glist(ev['objs'], g_obj), glist(ev['ents'], g_ent), glist(ev['assoc'], g_assoc))
+    if ev['ev'] == 'rawassoc':
+        return '(RawAssoc %s)' % g_assoc(ev)
     return {'commit': 'Commit', 'rollback': 'Rollback', 'manualtx': 'ManualTx'}[ev['ev']]
 
 
